@@ -1,5 +1,6 @@
 import SfVerif.Model.Proto
 import SfVerif.Lemmas.Blit
+import SfVerif.Lemmas.Intern4
 /-! C12 — an interned string id always resolves to the bytes that were interned. -/
 namespace SfVerif.Props.C12
 open SfVerif SfVerif.Gen
@@ -159,5 +160,118 @@ theorem C12_lookup_by_id (c : Ctx) (s : Scope) (id : Nat) (bs : Bytes)
 /-- non-vacuity: two interned strings, the second forcing growth; both ids resolve -/
 example : (internAll {} [#[1, 2, 3], #[]]).spans.size = 2 := by
   have := (C12_refines [#[1, 2, 3], #[]]).1; simpa using this
+
+
+/-- the interning part of a thread after a history is the interning sub-machine run on that history
+    (every protocol operation, the typed (de)serialisation ones included) -/
+theorem run_istate (w : Nat) (ops : List Op) (t : Thread) :
+    (Thread.run w t ops).1.istate = t.istate.run ops := by
+  induction ops generalizing t with
+  | nil => rfl
+  | cons op rest ih =>
+    simp only [Thread.run, IState.run]
+    rw [ih, Thread.step_istate w t op]
+
+/-- **C12 at the level of a whole thread, every history**: in any thread state reached from a fresh
+    thread by any sequence of protocol operations — reads, writes, logs, new invocations, further
+    interning of any number and size of strings, pending and completed copies — an id that resolves to
+    `bs` (and is not the reservation still waiting for its copy) resolves to `bs` after every further
+    sequence of operations. -/
+theorem C12_id_resolves_forever (w : Nat) (pre post : List Op)
+    (id : Nat) (bs : Bytes)
+    (h : Resolves (Thread.run w {} pre).1.istate id bs) :
+    (Thread.run w (Thread.run w {} pre).1 post).1.ctx.interner.get? id = some bs := by
+  have hinv : IInv (Thread.run w {} pre).1.istate := by
+    rw [run_istate w pre]; exact iinv_run iinv_init pre
+  have := resolves_run hinv h post
+  rw [← run_istate w post] at this
+  exact this.1
+
+/-- every way of interning yields such an id: a whole `intern` call returns the number of strings
+    interned so far (a fresh id) and that id resolves to the bytes from then on -/
+theorem C12_intern_creates (w : Nat) (pre : List Op) (bs : Bytes) :
+    let t := (Thread.run w {} pre).1
+    (t.step w (.intern bs)).2 = s!"id {t.ctx.interner.spans.size}" ∧
+    Resolves (t.step w (.intern bs)).1.istate t.ctx.interner.spans.size bs := by
+  intro t
+  have hinv : IInv t.istate := by
+    show IInv (Thread.run w {} pre).1.istate
+    rw [run_istate w pre]; exact iinv_run iinv_init pre
+  refine ⟨rfl, ?_⟩
+  rw [Thread.step_istate w t (.intern bs)]
+  exact ⟨intern_new _ _ hinv.consec, notPending_new t.istate hinv bs⟩
+
+/-- the split form used by the glue (reserve, then copy exactly the reserved length) yields one too -/
+theorem C12_reserve_then_copy_creates (w : Nat) (pre : List Op) (bs : Bytes) :
+    let t := (Thread.run w {} pre).1
+    let t2 := ((t.step w (.internreq bs.size)).1.step w (.interncopy bs)).1
+    Resolves t2.istate t.ctx.interner.spans.size bs := by
+  intro t t2
+  have hinv : IInv t.istate := by
+    show IInv (Thread.run w {} pre).1.istate
+    rw [run_istate w pre]; exact iinv_run iinv_init pre
+  show Resolves ((t.step w (.internreq bs.size)).1.step w (.interncopy bs)).1.istate _ bs
+  rw [Thread.step_istate w _ (.interncopy bs), Thread.step_istate w t (.internreq bs.size)]
+  have hc := preallocate_consec t.istate.s bs.size hinv.consec
+  simp only [IState.step, Nat.lt_irrefl, gt_iff_lt, if_false]
+  refine ⟨?_, fun _ _ h => (by cases h)⟩
+  exact get?_copyAt_self _ hc _ _ _ (get?_preallocate_new _ _)
+
+/-- **cached id handles**: once a `load` of the cached handle for `bs` has answered an id on this
+    thread, every later load on this thread — after any operations in between — answers the same id,
+    without interning again, and that id resolves to `bs` -/
+theorem C12_cached_same_id (w : Nat) (pre mid : List Op) (bs : Bytes) :
+    let t1 := ((Thread.run w {} pre).1.step w (.cached bs))
+    let t2 := (Thread.run w t1.1 mid).1
+    (t2.step w (.cached bs)).2 = t1.2 ∧ (t2.step w (.cached bs)).1.istate = t2.istate ∧
+    ∃ id, t1.2 = s!"id {id}" ∧ t2.ctx.interner.get? id = some bs := by
+  intro t1 t2
+  let t0 := (Thread.run w {} pre).1
+  have hinv0 : IInv t0.istate := by
+    show IInv (Thread.run w {} pre).1.istate
+    rw [run_istate w pre]; exact iinv_run iinv_init pre
+  have hinv1 : IInv t1.1.istate := by
+    show IInv (t0.step w (.cached bs)).1.istate
+    rw [Thread.step_istate w t0 (.cached bs)]; exact iinv_step hinv0 _
+  -- after the first load the cache has an entry for `bs`, and the answer is its id
+  have hentry : ∃ id, t1.1.cache.find? (fun q => q.1 == bs) = some (bs, id) ∧ t1.2 = s!"id {id}" := by
+    show ∃ id, (t0.step w (.cached bs)).1.cache.find? (fun q => q.1 == bs) = some (bs, id) ∧ (t0.step w (.cached bs)).2 = s!"id {id}"
+    simp only [Thread.step]
+    cases hf : t0.cache.find? (fun p => p.1 == bs) with
+    | some p =>
+      obtain ⟨b', id⟩ := p
+      have hb : b' = bs := by
+        have := List.find?_some hf; simpa using this
+      subst hb
+      exact ⟨id, hf, rfl⟩
+    | none =>
+      refine ⟨(t0.ctx.interner.intern bs).2, ?_, rfl⟩
+      simp
+  obtain ⟨id, hfind, hans⟩ := hentry
+  have hfind2 : t2.cache.find? (fun q => q.1 == bs) = some (bs, id) := by
+    have := cache_find_run t1.1.istate bs (bs, id) hfind mid
+    rw [← run_istate w mid] at this
+    exact this
+  have hres1 : Resolves t1.1.istate id bs := hinv1.cache (bs, id) (List.mem_of_find?_eq_some hfind)
+  have hres2 := resolves_run hinv1 hres1 mid
+  rw [← run_istate w mid] at hres2
+  refine ⟨?_, ?_, id, hans, hres2.1⟩
+  · simp only [Thread.step, hfind2, hans]
+  · rw [Thread.step_istate w t2 (.cached bs)]
+    simp only [IState.step]
+    have : t2.istate.cache.find? (fun p => p.1 == bs) = some (bs, id) := hfind2
+    rw [this]
+
+/-- non-vacuity: a history with a pending reservation, a completed copy and a cached handle -/
+example : Resolves (Thread.run 64 {} [.internreq 2, .intern #[7], .interncopy #[1, 2], .cached #[9]]).1.istate 1 #[7] := by
+  have := C12_intern_creates 64 [.internreq 2] #[7]
+  simp only at this
+  have h1 := this.2
+  have hinv : IInv ((Thread.run 64 {} [.internreq 2]).1.step 64 (.intern #[7])).1.istate := by
+    rw [Thread.step_istate _ _ _, run_istate 64 _]
+    exact iinv_step (iinv_run iinv_init _) _
+  have h2 := resolves_run hinv h1 [.interncopy #[1, 2], .cached #[9]]
+  rw [← run_istate 64 _] at h2
+  exact h2
 
 end SfVerif.Props.C12
